@@ -43,7 +43,7 @@ theorem names_equal_up_to_normalization (a b : Name) (hab : norm a = norm b) (s 
   · simp [step, moveChild, newName, hab]
   · simp [step, hab]
 
-example : (run (fun (x : String) => x.toLower) (fun _ => ([] : Children String Nat))
+example : (run (fun (x : String) => if x = "A" then "a" else x) (fun _ => ([] : Children String Nat))
     [(5, .setNode ⟨0, false⟩ "A" ⟨.file, none, some 1, false⟩ none .yes false),
      (6, .setNode ⟨0, false⟩ "a" ⟨.file, none, some 2, false⟩ none .no false),
      (7, .delete ⟨0, false⟩ "A" true false false)]).2 =
@@ -119,8 +119,9 @@ theorem rename_never_loses_child (hnorm : ∀ x, norm (norm x) = norm x) (s : St
     have : absS s h.dir (norm curx) = some (child, md) := hold
     rw [this] at hc; cases hc
     refine ⟨hr, ?_, hgone, ?_⟩
-    · refine ⟨_, ?_⟩
-      rw [hnew]
+    · rw [hnew]
+      generalize Option.map (fun x => x.snd) (absS s h2.dir (newName norm curx newx)) = o
+      refine ⟨updateMetadata o (some md) now, ?_⟩
       simp only [stored]
       split
       · right; rfl
@@ -153,22 +154,23 @@ theorem linkcrtime_preserved_linkmotime_now (hnorm : ∀ x, norm (norm x) = norm
         lookup (norm namex) ((step norm s now (.setMetadata h namex m)).1 h.dir) = some e' ∧
         e'.2.sys "linkmotime" = some (.time now) ∧
         (∀ c, old.2.sys "linkcrtime" = some c → e'.2.sys "linkcrtime" = some c)) := by
+  have hl : absS s h.dir (norm namex) = lookup (norm namex) (s h.dir) := rfl
   constructor
   · intro hok
     rw [res_step norm hnorm] at hok
     rw [lookup_step norm hnorm]
     simp only [specStep] at hok ⊢
-    split at hok
-    · cases hok
-    · split at hok
-      · cases hok
-      · split at hok
-        · cases hok
-        · rename_i hq
-          rw [hq]
+    by_cases h1 : (eager && child.err) = true
+    · simp [h1] at hok
+    · simp only [h1, if_false, Bool.false_eq_true] at hok ⊢
+      by_cases h2 : h.readonly = true
+      · simp [h2] at hok
+      · simp only [h2, if_false, Bool.false_eq_true] at hok ⊢
+        cases hq : specAdd norm ow now (absS s h.dir) (namex, child, md) with
+        | error x => rw [hq] at hok; cases hok
+        | ok m' =>
           simp only [ASetDir, if_true]
           unfold specAdd specAddAt at hq
-          have hl : absS s h.dir (norm namex) = lookup (norm namex) (s h.dir) := rfl
           simp only [] at hq
           split at hq
           · cases hq
@@ -179,34 +181,34 @@ theorem linkcrtime_preserved_linkmotime_now (hnorm : ∀ x, norm (norm x) = norm
               · split at hq
                 · cases hq
                 · cases hq
-                  refine ⟨_, by simp [AMap.set], stored_motime _ _ _ _, ?_, ?_⟩
+                  refine ⟨stored (some oldmd) child md now, by simp [AMap.set], stored_motime _ _ _ _, ?_, ?_⟩
                   · intro old' c ho hc
                     rw [← hl, heq] at ho; cases ho
                     simp only [stored]; exact updateMetadata_crtime _ _ _ _ hc
                   · intro hn; rw [← hl, heq] at hn; cases hn
             · rename_i heq
               cases hq
-              refine ⟨_, by simp [AMap.set], stored_motime _ _ _ _, ?_, ?_⟩
+              refine ⟨stored none child md now, by simp [AMap.set], stored_motime _ _ _ _, ?_, ?_⟩
               · intro old' c ho; rw [← hl, heq] at ho; cases ho
               · intro _; simp only [stored]; exact updateMetadata_crtime_new _ _
   · intro hok
     rw [res_step norm hnorm] at hok
     rw [lookup_step norm hnorm]
     simp only [specStep] at hok ⊢
-    split at hok
-    · cases hok
-    · split at hok
-      · cases hok
-      · rename_i hq
-        rw [hq]
+    by_cases h2 : h.readonly = true
+    · simp [h2] at hok
+    · simp only [h2, if_false, Bool.false_eq_true] at hok ⊢
+      cases hq : specSetMetadata norm namex m now (absS s h.dir) with
+      | error x => rw [hq] at hok; cases hok
+      | ok m' =>
         simp only [ASetDir, if_true]
         unfold specSetMetadata at hq
-        have hl : absS s h.dir (norm namex) = lookup (norm namex) (s h.dir) := rfl
         split at hq
         · cases hq
         · rename_i child0 oldmd heq
           cases hq
-          refine ⟨(child0, oldmd), _, by rw [← hl, heq], by simp [AMap.set], stored_motime _ _ _ _, ?_⟩
+          refine ⟨(child0, oldmd), stored (some oldmd) child0 (some m) now, by rw [← hl, heq],
+            by simp [AMap.set], stored_motime _ _ _ _, ?_⟩
           intro c hc
           simp only [stored]; exact updateMetadata_crtime _ _ _ _ hc
 
